@@ -22,6 +22,8 @@ type jTV struct{ S string } // TextMarshaler, value receiver
 type jTP struct{ S string } // TextMarshaler, pointer receiver
 type jTKey string           // string kind + TextMarshaler (map keys)
 type jIKey int              // int kind + TextMarshaler (map keys)
+type jWKey struct{ P *jTP } // pointer-shaped struct + TextMarshaler (map keys)
+type jAKey [1]*jTP          // pointer-shaped array + TextMarshaler (map keys)
 type JE1 struct {
 	X int
 	Y string `json:"y,omitempty"`
@@ -45,6 +47,20 @@ func (m jTV) MarshalText() ([]byte, error)   { return []byte("tv:" + m.S), nil }
 func (m *jTP) MarshalText() ([]byte, error)  { return []byte("tp:" + m.S), nil }
 func (k jTKey) MarshalText() ([]byte, error) { return []byte("tk:" + string(k)), nil }
 func (k jIKey) MarshalText() ([]byte, error) { return []byte("ik:" + strconv.Itoa(int(k))), nil }
+func (k jWKey) MarshalText() ([]byte, error) {
+	if k.P == nil {
+		return []byte("w:nil"), nil
+	}
+	return []byte("w:" + k.P.S), nil
+}
+func (k jAKey) MarshalText() ([]byte, error) {
+	if k[0] == nil {
+		return []byte("a:nil"), nil
+	}
+	return []byte("a:" + k[0].S), nil
+}
+
+var jPtrKeys = []reflect.Type{reflect.TypeOf((*jTP)(nil)), reflect.TypeOf(jWKey{}), reflect.TypeOf(jAKey{})}
 
 func (m *jMV) UnmarshalJSON(b []byte) error {
 	var x struct {
@@ -118,6 +134,15 @@ func (g *jgen) ty(depth int) reflect.Type {
 			g.feat("tkey")
 		case 1:
 			k = reflect.TypeOf(jIKey(0))
+		case 4:
+			// key types whose interface word is the pointer itself (*K, struct{*K}, [1]*K) with MarshalText; encode only:
+			// neither library can decode into them. jTV: a struct key with both text methods.
+			if g.decode || h.Intn(4) == 0 {
+				k = reflect.TypeOf(jTV{})
+			} else {
+				k = jPtrKeys[h.Intn(len(jPtrKeys))]
+			}
+			g.feat("textkey")
 		case 2, 3:
 			k = []reflect.Type{reflect.TypeOf(int(0)), reflect.TypeOf(int8(0)), reflect.TypeOf(uint16(0)), reflect.TypeOf(int64(0)), reflect.TypeOf(uint64(0))}[h.Intn(5)]
 		default:
@@ -324,6 +349,27 @@ func (g *jgen) val(t reflect.Type, depth int) reflect.Value {
 			g.feat("multimap")
 		}
 		v.Set(reflect.MakeMapWithSize(t, n))
+		if kt := t.Key(); kt == jPtrKeys[0] || kt == jPtrKeys[1] || kt == jPtrKeys[2] {
+			// distinct pointers with distinct texts (the entry number), so that the sorted output is determined; the
+			// first key is sometimes the nil pointer
+			for i := 0; i < n; i++ {
+				p := &jTP{S: string(rune('a'+h.Intn(3))) + strconv.Itoa(i)}
+				if i == 0 && h.Intn(3) == 0 {
+					p = nil
+				}
+				var kv reflect.Value
+				switch kt {
+				case jPtrKeys[0]:
+					kv = reflect.ValueOf(p)
+				case jPtrKeys[1]:
+					kv = reflect.ValueOf(jWKey{p})
+				default:
+					kv = reflect.ValueOf(jAKey{p})
+				}
+				v.SetMapIndex(kv, g.val(t.Elem(), depth+1))
+			}
+			return v
+		}
 		for i := 0; i < n; i++ {
 			v.SetMapIndex(g.val(t.Key(), depth+1), g.val(t.Elem(), depth+1))
 		}
